@@ -101,7 +101,7 @@ def BlocksAt : List Block → Bytes → Nat → Prop
 
 /-- is the extended header honoured?  (`ExtHeaderOffset ≠ 0 ∧ Length ≥ 20 ∧ offset < Length − 20`) -/
 def fvHasExt (i : FvInfo) : Prop :=
-  i.extHeaderOffset ≠ 0 ∧ i.length ≥ 20 ∧ i.extHeaderOffset < i.length - 20
+  i.extHeaderOffset ≠ 0 ∧ i.length ≥ 20 ∧ i.extHeaderOffset ≤ i.length - 20
 
 instance (i : FvInfo) : Decidable (fvHasExt i) := by unfold fvHasExt; infer_instance
 
